@@ -407,9 +407,14 @@ def check(tier, seed):
                         ("hide the only field of an input object", lambda: _Hide("In", "only")), ("assign an incompatible resolver in place", _Assign),
                         ("hide nothing", lambda: _Hide("Nope", "nope"))]:
         src_schema = build_schema(DERIVE_SDL)
-        src_schema.validate()
         n += 1
         nontrivial += 1
+        try:
+            src_schema.validate()
+        except Exception as e:
+            run.violation("validate:only-schema-errors" if not isinstance(e, SchemaError) else "validate:accepts-valid-schemas",
+                          "validating a valid schema raised %r" % (e,), {"sdl": DERIVE_SDL, "exc": type(e).__name__}, True)
+            break
         derived, refused = None, False
         try:
             derived = transform_schema(src_schema, make())
